@@ -2,6 +2,7 @@ package sim
 
 import (
 	"fmt"
+	"sort"
 	"math/big"
 	"strings"
 
@@ -127,8 +128,8 @@ func (w *World) strField(tag string, rule int, limit int) string {
 		}
 		return base + strings.Repeat("x", n-len(base))
 	}
-	switch rule % 6 {
-	case 0:
+	switch rule % 12 {
+	case 0, 6:
 		return base
 	case 1:
 		return pad(limit)
@@ -140,8 +141,18 @@ func (w *World) strField(tag string, rule int, limit int) string {
 		// rune count within the limit, byte length above it
 		n := limit/2 + 2
 		return strings.Repeat("é", n)
-	default:
+	case 5:
 		return pad(4 * limit)
+	case 7:
+		return " " + base // leading blank
+	case 8:
+		return base + "\t" // trailing tab
+	case 9:
+		return "\n  " + base + "  \r\n"
+	case 10:
+		return "MiXed " + base + " Case\u00a0" // inner blanks, upper case, non-breaking space at the end
+	default:
+		return base + "\x00" + "z" // embedded NUL
 	}
 }
 
@@ -246,7 +257,18 @@ func (w *World) buildOp(op *Op) *BuiltOp {
 		b.Desc = fmt.Sprintf("whitelist add=%v %s by %s", add, target.Name, named.Name)
 		b.Apply = func(w *World) { w.Ent.ApplyWhitelist(target.Key(), add) }
 	case WrkReg, BcnReg:
-		setParties(w.acct(op.Peer))
+		regActor := w.acct(op.Peer)
+		if op.Rule == 1 && len(w.Ent.Completed) > 0 {
+			var holders []string
+			for k := range w.Ent.Completed {
+				holders = append(holders, k)
+			}
+			sort.Strings(holders)
+			if a := w.addrByKey(holders[op.Peer%len(holders)]); a.Acct != nil {
+				regActor = a
+			}
+		}
+		setParties(regActor)
 		m := w.Wrk
 		b.Module = "wrk"
 		if op.Kind == BcnReg {
@@ -256,10 +278,10 @@ func (w *World) buildOp(op *Op) *BuiltOp {
 		b.IsFeeOp = true
 		named := b.Named
 		mon := w.strField("mon", op.Str, 64)
-		name := w.strField("name", op.Str/6, 128)
+		name := w.strField("name", op.Str/12, 128)
 		var fields []string
 		if op.Kind == WrkReg {
-			gh := w.strField("gen", op.Str/36, 66)
+			gh := w.strField("gen", op.Str/144, 66)
 			typ := w.strField("typ", 0, 20)
 			b.Msg = &wrkchaintypes.MsgRegisterWrkChain{Moniker: mon, Name: name, GenesisHash: gh, BaseType: typ, Owner: named.Str(op.Upper)}
 			fields = []string{mon, name, gh, typ}
@@ -312,7 +334,7 @@ func (w *World) buildOp(op *Op) *BuiltOp {
 				h = op.N
 			}
 			b.U64 = h
-			f := []string{w.strField("bh", op.Str, 66), w.strField("ph", op.Str/6, 66), w.strField("h1", op.Str/36, 66), w.strField("h2", 0, 66), w.strField("h3", 0, 66)}
+			f := []string{w.strField("bh", op.Str, 66), w.strField("ph", op.Str/12, 66), w.strField("h1", op.Str/144, 66), w.strField("h2", 0, 66), w.strField("h3", 0, 66)}
 			b.Msg = &wrkchaintypes.MsgRecordWrkChainBlock{WrkchainId: id, Height: h, BlockHash: f[0], ParentHash: f[1], Hash1: f[2], Hash2: f[3], Hash3: f[4], Owner: named.Str(op.Upper)}
 			b.Expect = m.ExpectRecord(named.Key(), id, h)
 			b.Desc = fmt.Sprintf("wrk record id=%d height=%d by %s", id, h, named.Name)
